@@ -34,7 +34,7 @@ def assumptions_of(module, theorems):
     return res
 
 
-def prove(chk, files, prop_file, optional=()):
+def prove(chk, files, prop_file, groups=("core",), gen_modules=None):
     """Build `files` (+ the property file). Fills the obligations part of the evidence.
     Returns (ok, build_result)."""
     targets = list(files) + [prop_file]
@@ -54,8 +54,12 @@ def prove(chk, files, prop_file, optional=()):
                            "detail": br.failed_vo.get(f, "not built")})
     if br.lint:
         broken.append({"what": "lint: forbidden construct in the development", "detail": br.lint})
-    if not br.driver_ok:
-        broken.append({"what": "extraction/driver build failed", "detail": br.driver_error})
+    for g in groups:
+        if br.drivers.get(g, "no such extraction group") is not None:
+            broken.append({"what": f"extraction/driver build of group {g} failed", "detail": br.drivers.get(g, "missing")})
+    if br.gen_error and gen_modules:
+        if not any(("specs_" + m) in br.gen_error for m in gen_modules):
+            broken = [b for b in broken if not b["what"].startswith("translator failed")]
     cov["discharged"] = len(names) if prop_file in br.built_vo else 0
     if prop_file in br.built_vo:
         mod = prop_file[:-2].replace("/", ".")
